@@ -216,10 +216,28 @@ func execSeq(line string, f []string) zv.Out {
 		c := u.Certs[t.I]
 		switch t.Kind {
 		case 'a', 'r':
+			var preWalk string
+			preOK := t.Kind == 'a' && g.Edge(t.I) == nil
+			if preOK {
+				ci, _ := ChainsToIdx(u, rg.WalkChains(c))
+				preWalk = Canon(ci)
+			}
 			if t.Kind == 'r' {
 				rg.AddRoot(c)
 			} else {
 				rg.AddCert(c)
+			}
+			if preOK {
+				// T3 (start-edge synthesis): the walk from a certificate that is not in the graph returns what the
+				// walk returns once the certificate has been inserted with AddCert
+				ci, _ := ChainsToIdx(u, rg.WalkChains(c))
+				if post := Canon(ci); post != preWalk {
+					fail("token %d %s: WalkChains before inserting the certificate returned %s, after AddCert %s", k, t, preWalk, post)
+				}
+				tags["synth-vs-insert"] = true
+				if preWalk != "0 -" {
+					tags["synth-vs-insert-nonempty"] = true
+				}
 			}
 			ops = append(ops, c10.Op{Root: t.Kind == 'r', I: t.I})
 			g = c10.Translate(u, rg.ZVDump())
@@ -315,6 +333,15 @@ func exec(line string) zv.Out {
 	if len(f) == 5 && f[1] == "seq" {
 		return execSeq(line, f)
 	}
+	if len(f) == 2 && f[1] == "const" {
+		return execConst()
+	}
+	if len(f) == 7 && f[1] == "can" {
+		return execCan(f)
+	}
+	if len(f) == 8 && f[1] == "async" {
+		return execAsync(line, f)
+	}
 	if len(f) != 5 {
 		panic("bad c11 line")
 	}
@@ -394,6 +421,256 @@ func exec(line string) zv.Out {
 		tags = append(tags, "start-is-root")
 	}
 	return zv.Out{Go: got, Viol: viol, Tags: tags}
+}
+
+
+// line:  c11 const
+// output: maxIntermediateCount=<n> defaultChannelSize=<cap of the channel WalkChainsAsync returns for ChannelSize 0>
+func execConst() zv.Out {
+	g := verifier.NewGraph()
+	u := c10.Load(c10.FormatSpecs([]c10.CertSpec{def(0, 0, 0, 0)}))
+	ch := g.WalkChainsAsync(u.Certs[0], verifier.WalkOptions{})
+	n := cap(ch)
+	for range ch {
+	}
+	viol := ""
+	if verifier.ZVMaxIntermediateCount != maxLen {
+		viol = fmt.Sprintf("maxIntermediateCount is %d, the documented maximum chain length is %d", verifier.ZVMaxIntermediateCount, maxLen)
+	}
+	return zv.Out{Go: fmt.Sprintf("maxIntermediateCount=%d defaultChannelSize=%d", verifier.ZVMaxIntermediateCount, n), Viol: viol, Tags: []string{"const"}}
+}
+
+// line:  c11 can <BasicConstraintsValid 0/1> <IsCA 0/1> <MaxPathLen> <root 0/1> <len(chain)>
+// output: 0 nil / 1 NotAuthorizedToSign / 2 TooManyIntermediates   (the REAL canAddToChain, through the hook)
+func execCan(f []string) zv.Out {
+	bc, _ := strconv.Atoi(f[2])
+	ca, _ := strconv.Atoi(f[3])
+	mpl, _ := strconv.Atoi(f[4])
+	root, _ := strconv.Atoi(f[5])
+	n, _ := strconv.Atoi(f[6])
+	c := &x509.Certificate{BasicConstraintsValid: bc != 0, IsCA: ca != 0, MaxPathLen: mpl, MaxPathLenZero: bc != 0 && mpl == 0}
+	ct := x509.CertificateTypeIntermediate
+	if root != 0 {
+		ct = x509.CertificateTypeRoot
+	}
+	chain := make(x509.CertificateChain, n)
+	for i := range chain {
+		chain[i] = c
+	}
+	r := verifier.ZVCanAddToChain(c, ct, chain)
+	viol := ""
+	// T3, from the property's sentence: before the root only CA certificates; a path-length limit L admits at most
+	// L intermediates between the start certificate and the certificate carrying the limit
+	want := 0
+	if root == 0 && !(bc != 0 && ca != 0) {
+		want = 1
+	} else if bc != 0 && mpl >= 0 && n-1 > mpl {
+		want = 2
+	}
+	if r != want {
+		viol = fmt.Sprintf("canAddToChain returned kind %d, expected %d", r, want)
+	}
+	return zv.Out{Go: strconv.Itoa(r), Viol: viol, Tags: []string{"can", fmt.Sprintf("can-result=%d", r)}}
+}
+
+// line:  c11 async <specs> <verify-matrix> <start> <ChannelSize> <ValidSignature before 0/1> <ops>
+// output: cap=<cap(channel)> vs=<c.ValidSignature afterwards> <chains>
+func execAsync(line string, f []string) zv.Out {
+	u := c10.Load(f[2])
+	if p := u.SelfCheck(); p != "" {
+		return zv.Out{Go: "harness-error", Viol: p}
+	}
+	start, _ := strconv.Atoi(f[4])
+	size, _ := strconv.Atoi(f[5])
+	before := f[6] != "0"
+	ops := c10.ParseOps(f[7])
+	viol := ""
+	fail := func(format string, a ...any) {
+		if viol == "" {
+			viol = fmt.Sprintf(format, a...)
+		}
+	}
+	if vm := u.VerifyMatrix(); vm != f[3] {
+		fail("signature relation differs from construction: %s", vm)
+	}
+	rg := c10.BuildGraph(u, ops)
+	g := c10.Translate(u, rg.ZVDump())
+	dump := g.Canon()
+	c := u.Certs[start]
+	saved := c.ValidSignature
+	c.ValidSignature = before
+	ch := rg.WalkChainsAsync(c, verifier.WalkOptions{ChannelSize: size})
+	capv := cap(ch)
+	vsAtReturn := c.ValidSignature
+	var recv []x509.CertificateChain
+	for x := range ch {
+		recv = append(recv, x)
+	}
+	if _, open := <-ch; open {
+		fail("channel not closed after the range loop ended")
+	}
+	vs := c.ValidSignature
+	c.ValidSignature = saved
+	if vs != vsAtReturn {
+		fail("ValidSignature changed after WalkChainsAsync returned")
+	}
+	ci, p := ChainsToIdx(u, recv)
+	if p != "" {
+		fail("%s", p)
+	}
+	got := Canon(ci)
+	// branch of the start-edge synthesis, from the dump
+	tags := []string{"async", fmt.Sprintf("chansize=%s", sizeClass(size)), fmt.Sprintf("cap=%d", min(capv, 65))}
+	verifying, skipped := false, false
+	if g.Edge(start) != nil {
+		tags = append(tags, "start-in-graph")
+	} else {
+		for _, k := range g.Order {
+			if k.S != u.Specs[start].Iss {
+				continue
+			}
+			if u.Verifies(k.K, start) {
+				verifying = true
+				break
+			}
+			skipped = true
+		}
+		if verifying {
+			tags = append(tags, "synth-issuer-found")
+		} else {
+			tags = append(tags, "synth-no-issuer")
+		}
+		if skipped {
+			tags = append(tags, "synth-candidate-rejected")
+		}
+		if selfSigned(u.Specs[start]) {
+			tags = append(tags, "synth-self-signed-start")
+		}
+	}
+	// T3: the flag is set exactly when the certificate is in the graph or a node with the issuer name verifies it
+	if wantVS := before || g.Edge(start) != nil || verifying; vs != wantVS {
+		fail("ValidSignature is %v after the walk, expected %v (before=%v, in graph=%v, verifying issuer node=%v)", vs, wantVS, before, g.Edge(start) != nil, verifying)
+	}
+	if want := Canon(Reference(u, g, start)); got != want {
+		fail("WalkChainsAsync(size %d) delivered %s but the permitted root-terminated paths are %s", size, got, want)
+	}
+	if size > 0 && capv != size {
+		fail("channel capacity %d, requested %d", capv, size)
+	}
+	if after := c10.Translate(u, rg.ZVDump()).Canon(); after != dump {
+		fail("the walk changed the graph: before %s, after %s", dump, after)
+	}
+	tags = append(tags, fmt.Sprintf("vs=%v->%v", before, vs), fmt.Sprintf("chains=%d", min(len(ci), 8)))
+	return zv.Out{Go: fmt.Sprintf("cap=%d vs=%s %s", capv, b01(vs), got), Viol: viol, Tags: tags}
+}
+
+func b01(b bool) string {
+	if b {
+		return "1"
+	}
+	return "0"
+}
+
+func sizeClass(n int) string {
+	switch {
+	case n < 0:
+		return "neg"
+	case n == 0:
+		return "0"
+	case n <= 4:
+		return strconv.Itoa(n)
+	}
+	return "big"
+}
+
+var asyncSizes = []int{-3, -1, 0, 1, 2, 3, 4, 5, 7, 64, 1000}
+
+func emitAsync(g *zv.Gen, cs []c10.CertSpec, ops []c10.Op, starts []int) {
+	for i := range cs {
+		cs[i].Serial = i + 1
+	}
+	tok := c10.FormatSpecs(cs)
+	vm := c10.Load(tok).VerifyMatrix()
+	for _, s := range starts {
+		g.Emitf("c11 async %s %s %d %d %d %s", tok, vm, s, asyncSizes[g.Rng.Intn(len(asyncSizes))], g.Rng.Intn(2), c10.FormatOps(ops))
+	}
+}
+
+// genExtra: the constants, canAddToChain exhaustively on a small box, WalkChainsAsync observables.
+func genExtra(g *zv.Gen) {
+	r := g.Rng
+	g.Emitf("c11 const")
+	for bc := 0; bc <= 1; bc++ {
+		for ca := 0; ca <= 1; ca++ {
+			for mpl := -2; mpl <= 11; mpl++ {
+				for root := 0; root <= 1; root++ {
+					for n := 0; n <= 12; n++ {
+						g.Emitf("c11 can %d %d %d %d %d", bc, ca, mpl, root, n)
+					}
+				}
+			}
+		}
+	}
+	// every channel size on one fixed graph, both flag values, in-graph and out-of-graph start
+	{
+		cs := lineChain(4)
+		for i := range cs {
+			cs[i].Serial = i + 1
+		}
+		tok := c10.FormatSpecs(cs)
+		vm := c10.Load(tok).VerifyMatrix()
+		for _, sz := range asyncSizes {
+			for b := 0; b <= 1; b++ {
+				g.Emitf("c11 async %s %s 3 %d %d r0,a1,a2,a3", tok, vm, sz, b)
+				g.Emitf("c11 async %s %s 3 %d %d r0,a1,a2", tok, vm, sz, b)
+				g.Emitf("c11 async %s %s 3 %d %d r0,a1", tok, vm, sz, b)
+			}
+		}
+	}
+	// twins: several candidate nodes with the issuer name, some rejected before one verifies
+	for _, cs := range c10.Twins() {
+		for k := 0; k < len(cs); k++ {
+			var o2 []c10.Op
+			for i := 0; i < len(cs); i++ {
+				if i != k {
+					o2 = append(o2, c10.Op{Root: i == 0, I: i})
+				}
+			}
+			emitAsync(g, cs, o2, []int{k})
+			for j := len(o2) - 1; j > 0; j-- {
+				x := r.Intn(j + 1)
+				o2[j], o2[x] = o2[x], o2[j]
+			}
+			emitAsync(g, cs, o2, []int{k})
+		}
+	}
+	hs := c10.Handcrafted()
+	n := g.N(500, 20000)
+	for i := 0; i < n; i++ {
+		var cs []c10.CertSpec
+		if i < 2*len(hs) {
+			cs = append(cs, hs[i%len(hs)]...)
+		} else {
+			cs = c10.RandomUniverse(r, 4+r.Intn(6))
+		}
+		if r.Chance(50) {
+			mutateConstraints(r, cs)
+		}
+		if r.Chance(30) {
+			c10.Flavour(r, cs, 30)
+		}
+		var ops []c10.Op
+		for j := range cs {
+			if r.Chance(70) {
+				ops = append(ops, c10.Op{Root: (selfSigned(cs[j]) && r.Chance(70)) || r.Chance(8), I: j})
+			}
+		}
+		for j := len(ops) - 1; j > 0; j-- {
+			x := r.Intn(j + 1)
+			ops[j], ops[x] = ops[x], ops[j]
+		}
+		emitAsync(g, cs, ops, []int{r.Intn(len(cs)), r.Intn(len(cs))})
+	}
 }
 
 func def(subj, key, iss, sign int) c10.CertSpec {
@@ -604,6 +881,7 @@ func mutateConstraints(r *zv.Rng, cs []c10.CertSpec) {
 
 func gen(g *zv.Gen) {
 	r := g.Rng
+	genExtra(g)
 	genSeq(g)
 	// depth-limit boundaries: line chains of 7..11 certificates, root at the far end, start anywhere;
 	// with and without the leaf being in the graph
